@@ -33,6 +33,8 @@ def cases(tier, seed):
         yield {"fam": "rand", "i": i}
     for i in range(900 if tier == "quick" else 9000):
         yield {"fam": "empty", "i": i}
+    for i in range(12 if tier == "quick" else 120):
+        yield {"fam": "long", "i": i}
 
 
 def setup(ctx):
@@ -78,6 +80,10 @@ def persistence_check(ctx, final=False):
     try:  # an input of a dimensionality for which one of the requested metrics is not defined (may raise)
         one_d = np.array([0, 1, 1, 0, 2, 2, 0], dtype=np.uint8)
         pan.evaluate(ev, one_d, one_d.copy())
+    except Exception:  # noqa: BLE001
+        pass
+    try:  # somebody else in the process configures a handler for a single metric only
+        pan.make_handler({["DSC", "ASSD", "RVD"][ctx.counters.get("C13.persistent_evaluator_rechecks", 0) % 3]: ("ONE", "ONE", "ONE", "ONE")})
     except Exception:  # noqa: BLE001
         pass
     now = probe_globals(ev, cfg)
@@ -204,7 +210,24 @@ def run(case, ctx):
     gms = SUBSETS[i % len(SUBSETS)]
     j = int(r.integers(0, 10000))
     h = handler_for(j)
-    if fam == "rand":
+    if fam == "long":
+        # foregrounds tens of thousands of voxels apart along one axis (index arithmetic in narrow integer types)
+        n = int([40000, 33000, 70000, 66000, 140000, 32800][i % 6])
+        shape = [(n,), (2, n), (n, 3)][(i // 2) % 3]
+        refa = np.zeros(shape, dtype=np.uint8)
+        pred = np.zeros(shape, dtype=np.uint8)
+        ax = int(np.argmax(shape))
+        a = [slice(None)] * len(shape)
+        a[ax] = slice(2, 6 + i % 3)
+        refa[tuple(a)] = 1
+        a[ax] = slice(n - 9 - i % 5, n - 1)
+        pred[tuple(a)] = 1
+        if i % 4 == 3:
+            a[ax] = slice(n // 2, n // 2 + 3)
+            refa[tuple(a)] = 2 if it != "SEMANTIC" else 1
+        gms = ["ASSD", "DSC"]
+        ctx.count("f:family.foregrounds_far_apart")
+    elif fam == "rand":
         pred, refa, f = gen.random_pair(ctx.seed, 9000 + i, dtype=np.uint8)
         ctx.count("f:family." + f)
         if it == "SEMANTIC":
